@@ -20,6 +20,7 @@ import (
 	"runtime/debug"
 	"sort"
 	"sync"
+	"sync/atomic"
 	"testing"
 	"time"
 
@@ -299,6 +300,9 @@ type Spec[C any] struct {
 	Confirm bool
 }
 
+// confirmedOnce is set when a bounded-wait violation has been confirmed in this process.
+var confirmedOnce atomic.Bool
+
 // confirmed applies Spec.ConfirmKinds to an outcome.
 func (s Spec[C]) confirmed(c C, o Outcome) Outcome {
 	if o.V == nil || (len(s.ConfirmKinds) == 0 && !s.Confirm) {
@@ -310,12 +314,15 @@ func (s Spec[C]) confirmed(c C, o Outcome) Outcome {
 			need = true
 		}
 	}
-	if !need {
+	if !need || confirmedOnce.Load() {
+		// (once a violation has been confirmed in this process the search is shrinking a real failure: the variants
+		// it tries are not confirmed one by one, which would multiply every bounded wait by the number of variants)
 		return o
 	}
 	// up to five more executions of the same case; one more failure confirms
 	for i := 0; i < 5; i++ {
 		if o2 := s.Check(c); o2.V != nil {
+			confirmedOnce.Store(true)
 			return o
 		}
 	}
